@@ -67,11 +67,17 @@ func (v *notation_) GetClass() col.NotationClassLike {
 // Canonical
 
 func (v *notation_) FormatValue(value any) (source string) {
-	source = v.formatter_.FormatValue(value)
+	// A notation is shared by all collections of a class so each call gets its
+	// own formatter (with the same configuration).
+	var formatter = Formatter().MakeWithMaximum(v.formatter_.GetMaximum())
+	source = formatter.FormatValue(value)
 	return source
 }
 
 func (v *notation_) ParseSource(source string) (value any) {
-	value = v.parser_.ParseSource(source)
+	// A notation is shared by all collections of a class so each call gets its
+	// own parser.
+	var parser = Parser().Make()
+	value = parser.ParseSource(source)
 	return value
 }
